@@ -100,6 +100,17 @@ def run(ctx, model_ok):
                 'exec DATA+STRING pairs incl. STRING without DATA and DATA followed by unrelated records) x solo runs + '
                 'random merges + the sequential merge; non-trivial = distinct merged history in which >= 2 threads each '
                 'get >= 1 delivered trace and >= 1 name is learned')
+    # scale: many threads interleaved - each thread's traces are those of its solo run ([START, END] per call)
+    sc = [x for x in pc.scale_histories(uni, ctx.quick()) if x[0].startswith('threads')]
+    sres = vlib.run_impl('run_pairing.py', {'histories': [h for _, h, _ in sc]}, timeout=3000)['results']
+    ctx.evaluations += len(sc)
+    for (name, h, exp), r in zip(sc, sres):
+        ctx.count('scale:' + name)
+        if r['outs'] != exp:
+            j = next(k for k in range(len(h)) if r['outs'][k] != exp[k])
+            ctx.failing.append({'input': {'scale_history': name, 'records': len(h), 'thread': h[j][0], 'first_wrong_event': j},
+                                'expected': {'window': exp[j]}, 'actual': {'window': r['outs'][j]},
+                                'why': 'per-thread traces of the merged stream differ from the solo run of that thread (many threads)'})
     solo = {}
     cases = []
     for k, (h, r, m) in enumerate(zip(hs, res, meta)):
